@@ -138,7 +138,7 @@ def parse_output(out, harnesses, modname):
     return res
 
 
-def run_unit(unit, harnesses, repo_copy, gen_text='', timeout=900, jobs=8, playback=False, mem_gb=None):
+def run_unit(unit, harnesses, repo_copy, gen_text='', timeout=900, jobs=12, playback=False, mem_gb=None):
     """Run the given harness names of one unit. Returns {harness: result}."""
     u = UNITS[unit]
     text = harness_text(unit, gen_text)
